@@ -821,8 +821,8 @@ func TestVerifC10(t *testing.T) {
 		c10Table(e, rec, 4, true, 0, rng)
 		c10Table(e, rec, 5, false, 0, rng)
 		c10Table(e, rec, 6, false, 0, rng)
-		c10Table(e, rec, 8, false, vu.EnvInt("VERIF_C10_N8", 3000), rng)
-		for k := 0; k < vu.EnvInt("VERIF_C10_RANDOM", 20000); k++ {
+		c10Table(e, rec, 8, false, vu.EnvInt("VERIF_C10_N8", 2000), rng)
+		for k := 0; k < vu.EnvInt("VERIF_C10_RANDOM", 15000); k++ {
 			c10Run(e, rec, c10Random(rng, true))
 		}
 	} else {
